@@ -107,6 +107,10 @@ H2T = {0: "DATA", 1: "HEADERS", 2: "PRIORITY", 3: "RST_STREAM", 4: "SETTINGS", 6
 def h2_sig(e, kind):
     if e["ev"] == "randh2":
         return "C08:randh2:%s:%s" % (e.get("target"), kind)
+    if e["ev"] == "slist":
+        ids = sorted(set(i["id"] for i in e.get("items", [])))
+        shape = "single" if len(e.get("items", [])) == 1 else "repeated"
+        return "C08:slist:%s:%s-id%s:%s" % (e.get("target"), shape, "+".join(map(str, ids)), kind)
     if e["ev"] == "hpint":
         return "C08:hpint:%s:%s:%s" % (e.get("target"), e.get("field"), kind)
     if e["ev"] == "fval":
@@ -149,15 +153,15 @@ def run(ctx):
         cases = os.path.join(ctx.tmp, "h2cases.jsonl")
         r = run_tlc(ctx, "wire", "MalformedH2", "MalformedH2.cfg" if q else "MalformedH2_thorough.cfg", workers=1, cases_to=cases, timeout=1500)
         ctx.add_tlc(r)
-        for d in ("ContOffsetStuck", "SignedIndexCheck", "SignedStringLength", "TruncatedSizeUpdate"):
+        for d in ("ContOffsetStuck", "SignedIndexCheck", "SignedStringLength", "TruncatedSizeUpdate", "ValidateFirstOccurrence", "NoRangeCheck"):
             if run_tlc(ctx, "wire", "MalformedH2", "MalformedH2_defect_%s.cfg" % d, expect_ok=False)["ok"]:
                 raise vlib.Inconclusive("MalformedH2 model does not reject defect " + d)
         trace = os.path.join(ctx.tmp, "h2.ndjson")
         run_restartable(ctx, binary, "h2", cases, trace, ["-rand", "3000" if q else "100000"], timeout=1500)
-        evs = validate(ctx, "wire", "MalformedH2Trace", trace, "h2", h2_sig, ("h2", "hpack", "hpint", "fval"))
-        ctx.cov["evaluations"] += sum(len(e["runs"]) for e in evs if e["ev"] in ("h2", "hpack", "hpint", "fval"))
+        evs = validate(ctx, "wire", "MalformedH2Trace", trace, "h2", h2_sig, ("h2", "hpack", "hpint", "fval", "slist"))
+        ctx.cov["evaluations"] += sum(len(e.get("runs", [1, 1])) for e in evs if e["ev"] in ("h2", "hpack", "hpint", "fval", "slist"))
         ctx.cov["evaluations"] += sum(3 * e["count"] for e in evs if e["ev"] == "randh2")
-        ctx.cov["distinct_nontrivial"] += sum(1 for e in evs if e["ev"] in ("h2", "hpack", "hpint", "fval"))
+        ctx.cov["distinct_nontrivial"] += sum(1 for e in evs if e["ev"] in ("h2", "hpack", "hpint", "fval", "slist"))
         ctx.sample({"part": "hpint", "event": next((e for e in evs if e["ev"] == "hpint" and e["class"] == "maxacc"), None)})
         ctx.sample({"part": "h2", "event": next((e for e in evs if e["ev"] == "h2" and len(e["frames"]) > 2), evs[0])})
         ctx.sample({"part": "hpack", "event": next((e for e in evs if e["ev"] == "hpack" and e["n"] > 3), None)})
@@ -197,6 +201,10 @@ def run(ctx):
                 if e["ev"] == "alloc":
                     fam = re.sub(r"^((?:upstream-)?(?:content-length|chunk-size))-.*$", r"\1", e.get("name", ""))
                     return "C08:e2e:%s:%s:%s" % (e.get("proto"), fam, kind)
+                if e["ev"] == "followup":
+                    return "C08:e2e:%s:%s:%s" % (e.get("proto"), e.get("name"), kind)
+                if e["ev"] == "cpu":
+                    return "C08:e2e:%s:%s" % (kind, (e.get("where") or ["unknown"])[0])
                 if e["ev"] == "gauge":
                     return "C08:e2e:%s:%s" % (e.get("listener"), kind)
                 if e["ev"] == "serve":
